@@ -25,4 +25,23 @@ func init() {
 			"memory held is read by reflection from StreamLexer.buf and pool; if the fields are renamed the bound is not checked and the evidence says so",
 		},
 	}
+
+	cfgs["C12"] = &propCfg{
+		quickRuns: 400000, thoroughRuns: 40000000,
+		quickBudget: 100 * time.Second, thoroughBudget: 10 * time.Minute,
+		requiredProbes: []string{
+			"probe_terminator_borrowed", "probe_restore_after_borrow", "probe_ctor_reader_failed", "probe_ctor_reader_chunked",
+			"probe_peekrune_i_gt0_near_end", "probe_peekrune_multibyte", "probe_peekrune_truncated_at_end", "probe_peekrune_invalid_or_truncated",
+			"probe_scanned_to_end", "fault_error_with_data", "fault_error_without_data", "fault_zero_read", "eof_with_data",
+		},
+		rule: "one run = one seeded cursor history on a real parse.Input or buffer.Lexer built through a tape-chosen constructor (bytes with/without spare capacity and tape-chosen garbage behind the input, string, simulated reader with chunking/zero reads/EOF styles/failure at byte k, three kinds of Bytes() readers, nil); non-trivial = the constructor's reader chunked or failed, or the terminator was borrowed from the caller's array, or PeekRune(i>0) was issued within 4 bytes of the end; distinct = hash of (type, constructor, failure, operation-kind sequence, distance-to-end class of each rune operation)",
+		realStub: map[string][]string{
+			"real": append([]string{"parse.Input, buffer.Lexer, buffer.Reader, io.ReadAll, bytes.Buffer"}, realLib...),
+			"stub": {"faultio.Reader (io.Reader, with and without Bytes())", "the caller (operation generator, owner of the backing array)", "reference cursor (oracle), unicode/utf8 (oracle)"},
+		},
+		assumptions: []string{
+			"operation sequences respect the documented contract: start <= pos <= len, Restore only as the last call, PeekRune/MoveRune not issued at the end position itself",
+			"after construction there is no I/O left to fault: the history half is model-based exploration of a sequential API under the simulator's generator, replay and shrinker (DESIGN.md 3.2)",
+		},
+	}
 }
